@@ -9,12 +9,17 @@
    (c) what the encoder returns passes verification and is representable (C01_encoder_subframes_verify),
    so that, with no verification hypothesis left, the bytes of an encoded subframe decode to the input
    block (C01_subframe_end_to_end).
-   PARTIAL: frame framing (header fields, CRC-8/16, padding, channel count) and STREAMINFO around the
-   subframes are checked on every run by executing the extracted decoder on the implementation's
-   bytes (DEC oracle), not proved. *)
+   (d) frame level: on the bytes of a whole frame followed by anything, the decoder reads the header
+   fields (sync, block-size / sample-rate / sample-size codes, channel assignment, coded number,
+   CRC-8), every subframe, the zero padding and the CRC-16, and returns the decoded channels and the
+   remaining bytes (C01_decoder_reads_frame; frame bodies go through the word sink, whose export carries
+   the same bits: C01_word_sink_bytes_carry_the_bits).
+   PARTIAL: the stream container (marker, STREAMINFO, frame sequence and numbering, interleaving) and the
+   instantiation of the frame theorem's hypotheses for encode_frame's output are checked on every run
+   by executing the extracted decoder on the implementation's bytes (DEC oracle), not proved. *)
 From FV Require Import Model.Base Model.Sink Model.Codes Model.Rice Model.Predict Model.Component Model.Encoder
   Model.Flac Model.Ctor Proofs.Lossless Proofs.BitRead Proofs.BitWrite Proofs.CtorP Proofs.ParseResidual
-  Proofs.ParseSubframe Proofs.DecodeSubframe Proofs.EncoderVerifies.
+  Proofs.ParseSubframe Proofs.DecodeSubframe Proofs.EncoderVerifies Proofs.CountBits Proofs.DecodeFrame.
 Local Open Scope Z_scope.
 
 (* whatever the estimators answer, the subframe the encoder returns decodes to the block it was
@@ -125,3 +130,44 @@ Theorem C01_subframe_end_to_end :
     exists r', read_subframe (sub_block sf) (sub_bps sf) (rd_of bytes) = Some (samples, r').
 Proof. exact subframe_end_to_end. Qed.
 Print Assumptions C01_subframe_end_to_end.
+
+(* ---- frame level: the independent decoder on the bytes of a whole frame, followed by anything ---- *)
+(* header fields (sync, codes, coded number, CRC-8), every subframe, the zero padding and the CRC-16 are read
+   back; the code hypotheses are discharged for the writer's own codes by C01_block_code_reads / C01_rate_code_reads *)
+Theorem C01_decoder_reads_frame :
+  forall si f bytes rest ctag num rate bps chans,
+  let h := f_header f in
+  f_precomputed f = None -> frame_ops_wfb f = true -> frame_bytes f = Ok bytes ->
+  Forall (fun x => x < 256) rest ->
+  h_variable h = false -> chassign_tag (h_ch h) = Ok ctag -> utf8like (h_number h) = Ok num ->
+  c_tag (h_bs h) < 16 -> c_tag (h_sr h) < 16 -> h_ss_tag h < 8 ->
+  reads (block_of_code (c_tag (h_bs h))) (code_xbits (h_bs h)) (h_block h) ->
+  reads (rate_of_code (c_tag (h_sr h)) (i_rate si)) (code_xbits (h_sr h)) rate ->
+  bps_of_code (h_ss_tag h) (i_bps si) = Some bps ->
+  Forall2 (sub_ready (h_block h)) (f_subframes f) (flac_bpss ctag bps) ->
+  undo_stereo ctag (map decode_sub (f_subframes f)) = Some chans ->
+  forallb (fun c => forallb (in_range bps) c) chans = true ->
+  read_frame si (bytes ++ rest) = Some (mkFH (h_block h) ctag (h_number h) rate bps, chans, rest).
+Proof. exact flac_reads_frame. Qed.
+Print Assumptions C01_decoder_reads_frame.
+
+Theorem C01_block_code_reads : forall n c,
+  block_size_code n = Ok c -> n <= 65535 ->
+  reads (block_of_code (c_tag c)) (code_xbits c) n /\ c_tag c < 16 /\ c_xbits c mod 8 = 0.
+Proof. exact block_code_reads. Qed.
+Print Assumptions C01_block_code_reads.
+
+Theorem C01_rate_code_reads : forall f si_rate,
+  si_rate = f ->
+  let c := sample_rate_code f in
+  reads (rate_of_code (c_tag c) si_rate) (code_xbits c) f /\ c_tag c < 16 /\ c_xbits c mod 8 = 0.
+Proof. exact rate_code_reads. Qed.
+Print Assumptions C01_rate_code_reads.
+
+(* the word sink (frame bodies) exports the same bits as the byte sink *)
+Theorem C01_word_sink_bytes_carry_the_bits : forall (ops : list op) (bytes : list N),
+  forallb wf_op ops = true -> pack KU64 ops = Ok bytes ->
+  Forall (fun x => x < 256) bytes /\
+  bytes_bits bytes = ops_bitlist 0 ops ++ repeat false (N.to_nat (Proofs.OpsLen.pad8 (Proofs.OpsLen.ops_len 0 ops))).
+Proof. exact pack_u64_bits. Qed.
+Print Assumptions C01_word_sink_bytes_carry_the_bits.
